@@ -22,6 +22,8 @@ func init() {
 }
 
 func runC01(c *core.Ctx) {
+	c.Rule("ORDPOS", "ORDER BY <position> is resolved or rejected, never sorted as a constant")
+	checkOrderByOrdinal(c, "ORDPOS")
 	c.Rule("CSVNUM", "csv: a column of integers and floats is inferred as Float")
 	checkCSVNumericInference(c, "CSVNUM")
 	c.Rule("STARQ", "q.* with a qualifier matching no column is rejected")
